@@ -370,16 +370,21 @@ def run(ctx):
                 'a child added to a file ends up attributed to a file its parent is not in and is missing from that file\'s text', ar.where(S), sample={'fn': 'add_to_file_restricted', 'guards': ['parent splittable', 'local flag of file_membership()']})
     # "restricted": the sub elements do not follow. Wherever the set of this element or of an ancestor grows (own store, recursive call),
     # the sub elements that inherit were pinned to the old set first - the only way round the pin loop is "this element is not splittable"
-    pins = [pos for pos, t in ar.iter_calls() if call_matches(t, r'::clone_from$|::clone_into$|HashSet::<.*>::(extend|insert)$') and E.loops_containing(ar, [pos])
-            and (lambda rp: rp is not None and has_field(rp, 'ElementRaw.file_membership'))(E.recv_place(ar, t))]
-    pins += [pos for pos in stores if E.loops_containing(ar, [pos])] if 'stores' in dir() else []
-    grows = calls(ar, r'impl Element>::add_to_file_restricted$') + ([pos for pos in stores if not E.loops_containing(ar, [pos])] if 'stores' in dir() else [])
+    def _is_child_set(pl):
+        # the written set belongs to a sub element: the place derives from the iteration over the sub elements
+        cs = deep_sources(ar, pl, depth=14)[1]
+        return any(re.search(r'::sub_elements$|ElementsIterator|Iterator>?::next$', c) for c in cs)
+    mw = [(pos, E.recv_place(ar, t)) for pos, t in ar.iter_calls() if call_matches(t, r'::clone_from$|::clone_into$|HashSet::<.*>::(extend|insert)$')
+          and (lambda rp: rp is not None and has_field(rp, 'ElementRaw.file_membership'))(E.recv_place(ar, t))]
+    mw += [(pos, s_['dst']) for pos, s_ in ar.iter_stmts() if s_['k'] == 'assign' and ends_in_field(s_['dst'], 'ElementRaw.file_membership')]
+    pins = [pos for pos, pl in mw if _is_child_set(pl)]
+    grows = calls(ar, r'impl Element>::add_to_file_restricted$') + [pos for pos, pl in mw if not _is_child_set(pl)]
     gate = [q for q in calls(ar, r'ElementType::splittable$') if pins and any(ar.pos_dominates(q, p_) for p_ in pins)]
     if not pins or not grows or not gate:
         C.anchor_missing('C10-MUST-localset', 'add_to_file_restricted: pin loop over the sub elements / splittable test of the element / recursive call')
     else:
         # every path to a growing step passes the test that opens the pin loop (the loop itself may find nothing to pin)
-        okp = all(must_pass(ar, (0, 0), [g_], through={gate[-1]}) for g_ in grows)
+        okp = all(must_pass(ar, iteration_start(ar, g_), [g_], through={gate[-1]}) for g_ in grows)
         C.check(okp, 'C10-MUST-localset', 'add_to_file_restricted|sub-elements-pinned-before-any-set-grows', 'add_to_file_restricted can extend the file set of the element or of an ancestor without having pinned the inheriting sub elements to the previous set '
                 '(the pin loop is skipped under a condition other than "this element is not splittable"): sub elements of an element without a set of its own silently follow into the new file, which "add only this element and its parents" excludes',
                 ar.where(pins[0]), sample={'fn': 'add_to_file_restricted', 'pin': 'subelem.file_membership.clone_from(current set)', 'before': ['own store', 'parent.add_to_file_restricted']})
